@@ -188,6 +188,22 @@ let full_opts_of (s : string) : M.options =
         | _ -> d)) (split ',' s);
   !o
 
+let enc_options (o : M.options) : string =
+  let b x = if x then "1" else "0" in
+  let ob = function M.OBUnset -> "unset" | M.OBYes -> "yes" | M.OBNo -> "no" in
+  String.concat " " [
+    "b=" ^ b o.M.save_backup; "c=" ^ b o.M.interpret_as_context; "d=" ^ hex o.M.patch_directory_path; "D=" ^ hex o.M.define_macro;
+    "e=" ^ b o.M.interpret_as_ed; "i=" ^ hex o.M.patch_file_path; "l=" ^ b o.M.ignore_whitespace; "n=" ^ b o.M.interpret_as_normal;
+    "N=" ^ b o.M.ignore_reversed; "o=" ^ hex o.M.out_file_path; "p=" ^ dec_of_z o.M.strip_size; "F=" ^ dec_of_z o.M.max_fuzz;
+    "R=" ^ b o.M.reverse_patch_opt; "file=" ^ hex o.M.file_to_patch; "r=" ^ hex o.M.reject_file_path; "f=" ^ b o.M.force; "t=" ^ b o.M.batch;
+    "h=" ^ b o.M.show_help; "v=" ^ b o.M.show_version; "u=" ^ b o.M.interpret_as_unified; "verbose=" ^ b o.M.verbose; "dry=" ^ b o.M.dry_run;
+    "posix=" ^ b o.M.posix; "bim=" ^ ob o.M.backup_if_mismatch; "E=" ^ ob o.M.remove_empty_files;
+    "nl=" ^ (match o.M.newline_output with M.MNative -> "native" | M.MLF -> "lf" | M.MCRLF -> "crlf" | M.MKeep -> "keep");
+    "rf=" ^ (match o.M.reject_format_opt with M.RFContext -> "context" | M.RFUnified -> "unified" | M.RFDefault -> "default");
+    "ro=" ^ (match o.M.read_only with M.ROWarn -> "warn" | M.ROIgnore -> "ignore" | M.ROFail -> "fail");
+    "q=" ^ (match o.M.quoting with M.QSUnset -> "unset" | M.QSLiteral -> "literal" | M.QSShell -> "shell" | M.QSShellAlways -> "shell-always" | M.QSC -> "c");
+    "z=" ^ hex o.M.backup_suffix; "B=" ^ hex o.M.backup_prefix ]
+
 (* ---------- commands ---------- *)
 let spec_locate ws off mf lo ls h obs =
   let f = lines_of ls and hk = hunk_of h in
@@ -245,6 +261,11 @@ let run_case (toks : string list) : string =
     Printf.sprintf "EXIT %d TREE %s EVENTS %s STDOUT %s TRACE %s" (int_of_nat r.M.rr_exit)
       (enc_tree r.M.rr_world.M.fs) (hex r.M.rr_events) (hex r.M.rr_world.M.stdout_data)
       (let t = List.map enc_op r.M.rr_world.M.trace in if t = [] then "-" else String.concat "," t)
+  | ["ARGV"; px; q; args] ->
+    let argv = List.map (fun a -> if a = "." then [] else unhex a) (split ',' args) in
+    (match M.parse_args M.switches M.setters argv { M.p_opts = M.default_options; M.p_pos = M.O } with
+     | M.Throw _ -> "THROW"
+     | M.Ok p -> "OPTS " ^ enc_options (M.apply_defaults (bool_of px) (if q = "none" then None else Some (unhex q)) p.M.p_opts))
   | ["NORMWS"; a] -> "BYTES " ^ hex (M.norm_ws (unhex a))
   | ["WSMATCH"; a; b] -> b01 (M.matches_ignoring_whitespace (unhex a) (unhex b))
   | ["MATCH"; ws; a; b] -> b01 (M.matches (line_of a) (line_of b) (bool_of ws))
